@@ -160,7 +160,7 @@ pub fn exercise_with_deadline(text: &str) -> Result<Option<(String, String)>, St
             let _ = tx.send(exercise(&t));
         })
         .map_err(|e| e.to_string())?;
-    rx.recv_timeout(std::time::Duration::from_secs(20)).map_err(|_| "no answer within 20 s".to_string())
+    rx.recv_timeout(std::time::Duration::from_secs(90)).map_err(|_| "no answer within 90 s".to_string())
 }
 
 /// subprocess probe for sizes that may overflow the stack: `iwe-verif crash-probe <kind> <n>`
@@ -217,6 +217,29 @@ fn probe(kind: &str, n: usize) -> String {
             }
         }
         Err(e) => format!("cannot run: {}", e),
+    }
+}
+
+pub fn reader_correspondence(model: &mut Model, rep: &mut Report, text: &str) {
+    match crate::events::compare_reader(model, text) {
+        None => rep.count("reader_corr_skipped_unmodelled_constructor"),
+        Some(c) => {
+            rep.correspondence_cases += 1;
+            rep.count(&format!("reader_grammar_{}", c.grammar));
+            if let Some((m, i)) = &c.differ {
+                rep.disagree(json!({"op": "reader.read", "text": text, "model": crate::props::c04::decode(m), "impl": crate::props::c04::decode(i)}));
+            } else if c.grammar != "complete" {
+                // the only stream the grammar excludes on purpose is finding D9 (text inside a top-level HTML block),
+                // where model and implementation both fail; anything else contradicts the assumption of `reader_total`
+                if c.impl_panic.is_some() && c.model_error {
+                    rep.count("reader_grammar_excluded_stream_fails_in_both");
+                } else {
+                    rep.disagree(json!({"op": "parser grammar (Spec/Events.lean)", "text": text, "model": format!("event stream is not well-formed ({})", c.grammar), "impl": "pulldown-cmark produced it and the reader accepts it"}));
+                }
+            } else if c.impl_panic.is_some() {
+                rep.disagree(json!({"op": "reader_total", "text": text, "model": "grammatical stream", "impl": format!("reader panics: {:?}", c.impl_panic)}));
+            }
+        }
     }
 }
 
@@ -310,6 +333,10 @@ pub fn run(ctx: &Ctx, model: &mut Model, rep: &mut Report) {
                 }
             }
         }
+        // correspondence of the reader itself: the model's stack machine on the real parser's events vs
+        // `MarkdownReader::document` (blocks, line ranges, front matter, panic site), and the parser-grammar
+        // assumption of `reader_total` checked on this event stream
+        reader_correspondence(model, rep, &text);
         match exercise_with_deadline(&text) {
             Ok(None) => {}
             Ok(Some((op, msg))) => {
